@@ -112,8 +112,9 @@ def step (d : DS) : List String → DS × List String
   | [] => (d, [])
   | "cfg" :: args =>
     let ring := getArg args "ring"; let internal := getArg args "internal"; let nw := getArg args "nw"
-    ({ s := { ring := ring == 1, internal := internal, watchers := List.replicate nw none }, script := [] },
-     [s!"cfg ring={ring} internal={internal} nw={nw}"])
+    let multi := getArg args "multi"
+    ({ s := { ring := ring == 1, internal := internal, multi := multi == 1, watchers := List.replicate nw none }, script := [] },
+     [s!"cfg ring={ring} internal={internal} nw={nw} multi={multi}"])
   | "on" :: id :: occ :: rest =>
     match (splitSemi rest).mapM parseOp with
     | some ops => ({ d with script := ((nat! id, nat! occ), ops) :: d.script }, [])
